@@ -791,6 +791,9 @@ def _all_stmts(body):
         if isinstance(s, ast.Try):
             for h in s.handlers:
                 out.extend(_all_stmts(h.body))
+        if isinstance(s, ast.Match):
+            for c in s.cases:
+                out.extend(_all_stmts(c.body))
     return out
 
 
@@ -890,6 +893,10 @@ def _assigned_names(stmts, mutations=True) -> set[str]:  # noqa: FBT002
         if isinstance(s, ast.Try):
             for h in s.handlers:
                 for x in h.body:
+                    visit(x)
+        if isinstance(s, ast.Match):
+            for c in s.cases:
+                for x in c.body:
                     visit(x)
 
     for s in stmts:
@@ -1074,6 +1081,12 @@ class _Exec:
             return "raise", 0
         if isinstance(s, ast.If):
             return self.if_(s)
+        if isinstance(s, ast.Match):
+            chain = _match_as_if(s)
+            if chain is not None:
+                if not isinstance(chain, ast.If):
+                    chain = ast.fix_missing_locations(ast.copy_location(ast.If(test=ast.Constant(True), body=chain, orelse=[]), s))
+                return self.stmt(chain)
         if isinstance(s, ast.For):
             self.for_(s)
             return "fall", 0
@@ -1562,6 +1575,38 @@ def _rename_bv(t, mapping):
     if is_term(t) and t[0] == "bv" and len(t) == 3:
         return mapping.get(t, t)
     return tuple(_rename_bv(x, mapping) if isinstance(x, tuple) else x for x in t)
+
+
+def _match_as_if(s):
+    """`match x: case V1: A; case V2 | V3: B; case _: C` with value / literal / or / wildcard patterns is the
+    if-elif-else chain on `x == V`.  Anything else (captures, sequences, classes, guards): None (unsupported)."""
+    def test_of(pat):
+        if isinstance(pat, ast.MatchValue):
+            return ast.Compare(left=s.subject, ops=[ast.Eq()], comparators=[pat.value])
+        if isinstance(pat, ast.MatchSingleton):
+            return ast.Compare(left=s.subject, ops=[ast.Is()], comparators=[ast.Constant(pat.value)])
+        if isinstance(pat, ast.MatchOr):
+            parts = [test_of(p) for p in pat.patterns]
+            return None if any(p is None for p in parts) else ast.BoolOp(op=ast.Or(), values=parts)
+        return None
+
+    cases = list(s.cases)
+    orelse = []
+    if cases and isinstance(cases[-1].pattern, ast.MatchAs) and cases[-1].pattern.pattern is None and cases[-1].pattern.name is None \
+            and cases[-1].guard is None:
+        orelse = cases[-1].body
+        cases = cases[:-1]
+    node = None
+    for c in reversed(cases):
+        t = test_of(c.pattern)
+        if t is None or c.guard is not None:
+            return None
+        node = ast.If(test=t, body=c.body, orelse=[node] if node is not None else orelse)
+    if node is None:
+        return orelse or None
+    ast.copy_location(node, s)
+    ast.fix_missing_locations(node)
+    return node
 
 
 def _load(node):
